@@ -457,6 +457,8 @@ def deep_statements(tier="quick"):
 
 
 SPECIAL = [
+    "ALTER TABLE accounts ALTER COLUMN balance TYPE NUMERIC DEFAULT f(10) CHECK (balance <= (SELECT max_balance FROM limits))",
+    "ALTER TABLE t ADD COLUMN c INT DEFAULT g(1) CHECK (c > (SELECT MIN(d) FROM u))",
     "WITH x AS (DELETE FROM t WHERE a = 1 RETURNING a, b) SELECT a FROM x WHERE b IN (SELECT c FROM u)",
     "WITH ins AS (INSERT INTO t (a) VALUES (1) RETURNING a), upd AS (UPDATE u SET b = f(c) WHERE d = 2 RETURNING b) SELECT * FROM ins, upd",
     "SELECT STRING_AGG(name, ',' ORDER BY k1, k2 DESC, (SELECT MAX(p) FROM priorities)) FROM t",
